@@ -251,6 +251,14 @@ def jobs(tier):
             for crc in (0, 1, 2):
                 out.append(dict(func="download", params=dict(n=n, blks=blks, crc=crc, how="buffered", lose=lose,
                                                              final_loss=True), weight=n))
+    # ... and with a retransmit-requesting acknowledge that also announces a *smaller* block size, so that the resent
+    # segments spread over more than one sub-block, the second loss hitting the sub-block that begins with their tail
+    for blks in ([7, 3, 3, 7], [7, 2, 5, 7], [6, 4, 2, 7]):
+        for lose in ([2, 10], [2, 11], [2, 12], [1, 10], [3, 11], [2, 9], [4, 9]):
+            for crc in (0, 2):        # (with a CRC the comparison over 150 symbolic bytes does not finish; without one
+                                      # nothing but the client's bookkeeping protects the content anyway)
+                out.append(dict(func="download", params=dict(n=150, blks=blks, crc=crc, how="buffered", lose=lose,
+                                                             final_loss=True), weight=150))
     if not q:
         for n in (1, 7, 8, 14, 15, 22, 29, 35):
             for crc in (1, 0):
